@@ -5,6 +5,7 @@ import (
 	"context"
 	"sync"
 
+	"github.com/aptpod/iscp-go/errors"
 	"github.com/aptpod/iscp-go/internal/vf"
 	"github.com/aptpod/iscp-go/log"
 	"github.com/aptpod/iscp-go/message"
@@ -830,4 +831,64 @@ func zzC02eResume() {
 	vf.Assert("acks-of-the-new-alias-reach-the-stream", got == ack)
 	_ = oldAlias
 	vf.Reach("resumed")
+}
+
+// C10.c: stream Close is final whatever the broker answers to the close request (success, a failure
+// code, or nothing until the caller's context ends): afterwards the stream is closed, writes and
+// flushes fail with ErrStreamClosed, a second Close sends no second close request, and the closed
+// event fires at most once.
+func zzC10cUpstreamCloseFinal() {
+	w := zzNewWorld(message.QoSReliable, &flushPolicyNone{}, newInmemSentStorage())
+	u := w.u
+	w.autoClose = false
+	outcome := vf.Choose("close.response", 3) // 0 success, 1 failure code, 2 silence
+	nreq := 0
+	w.tr.OnWrite = func(m message.Message) error {
+		if r, ok := m.(*message.UpstreamCloseRequest); ok {
+			nreq++
+			switch outcome {
+			case 0:
+				wire.ZZDeliverRequest(w.wc, &message.UpstreamCloseResponse{RequestID: r.RequestID, ResultCode: message.ResultCodeSucceeded})
+			case 1:
+				wire.ZZDeliverRequest(w.wc, &message.UpstreamCloseResponse{RequestID: r.RequestID, ResultCode: message.ResultCodeStreamNotFound, ResultString: "no such stream"})
+			}
+		}
+		return nil
+	}
+	runCtx, cancelRun := context.WithCancel(u.ctx)
+	defer cancelRun()
+	go u.flushLoop(runCtx)
+	go u.eventDispatcher.dispatchLoop(context.Background())
+	ctx, cancel := context.WithCancel(context.Background())
+	defer cancel()
+	var cerr error
+	closed := false
+	go func() { cerr = u.Close(ctx); closed = true }()
+	vf.Settle()
+	if outcome == 2 {
+		vf.Assert("close-waits-for-the-broker", !closed)
+		cancel()
+		vf.Settle()
+	}
+	vf.Assert("close-returns", closed)
+	vf.Assert("close-request-sent-once", nreq == 1)
+	if outcome == 0 {
+		vf.Assert("close-ok", cerr == nil)
+	} else {
+		vf.Assert("failed-close-reports-an-error", cerr != nil)
+	}
+	vf.Assert("stream-is-closed-afterwards", u.isClosed())
+	werr := u.WriteDataPoints(context.Background(), zzDataID("late"), zzPoints("late", 1)...)
+	vf.Assert("write-after-close-is-stream-closed", werr != nil && errors.Is(werr, errors.ErrStreamClosed) && errors.Is(werr, errors.ErrISCP))
+	ferr := u.Flush(context.Background())
+	vf.Assert("flush-after-close-is-stream-closed", ferr != nil && errors.Is(ferr, errors.ErrStreamClosed))
+	panicked := vf.Panics(func() { u.Close(context.Background()) })
+	vf.Settle()
+	vf.Assert("second-close-no-panic-no-second-request", !panicked && nreq == 1)
+	vf.Assert("no-chunk-ever", len(w.chunks()) == 0)
+	vf.Assert("closed-event-at-most-once", len(w.closed.events) <= 1)
+	if outcome == 0 {
+		vf.Assert("closed-event-once-on-success", len(w.closed.events) == 1)
+	}
+	vf.Reach("end")
 }
